@@ -13,6 +13,7 @@ def run(run, model):
     run.do(rec.lazy_boolop, model, "C07.lazy", "C07.bool-value")
     run.do(rec.chain_and_lazy_compare, model, "C07.chain", "C07.lazy")
     run.do(rec.lazy_ifexp, model, "C07.lazy")
+    run.do(rec.formatted_value, model, "C07.fstring-format")
     run.do(rec.supported_forms, model)
     run.do(rec.dispatch_closed, model)
     run.do(rec.truth_protocol, model)
